@@ -13,9 +13,10 @@ import (
 
 // One recipient: 'r' refused at RCPT, or accepted with final verdict 'o' (ok), 't' (4xx), 'p' (5xx).
 type C18Case struct {
-	Tx    []string `json:"tx"`     // per transaction: one letter per recipient
-	UseCB bool     `json:"use_cb"` // LMTPData with callback / Data without
-	Plain bool     `json:"plain"`  // server backend without per-recipient support (every recipient gets the single result)
+	Tx    []string `json:"tx"`               // per transaction: one letter per recipient
+	UseCB bool     `json:"use_cb"`           // LMTPData with callback / Data without
+	Plain bool     `json:"plain"`            // server backend without per-recipient support (every recipient gets the single result)
+	NilCB bool     `json:"nil_cb,omitempty"` // without callback: LMTPData(nil) instead of Data()
 }
 
 func c18Verdict(ch byte, rcpt string) error {
@@ -31,6 +32,9 @@ func c18Verdict(ch byte, rcpt string) error {
 func evalC18(c C18Case) *h.Finding {
 	var f *h.Finding
 	desc := fmt.Sprintf("transactions=%v callback=%t plainbackend=%t", c.Tx, c.UseCB, c.Plain)
+	if c.NilCB {
+		desc += " (LMTPData(nil))"
+	}
 	cfg := h.Config{LMTP: true}
 	be := &h.Backend{LMTPSess: !c.Plain}
 	name := func(ti, ri int, ch byte) string {
@@ -127,6 +131,8 @@ func evalC18(c C18Case) *h.Finding {
 				var err error
 				if c.UseCB {
 					w, err = cl.LMTPData(func(rcpt string, st *smtp.SMTPError) { calls = append(calls, got{rcpt, st}) })
+				} else if c.NilCB {
+					w, err = cl.LMTPData(nil)
 				} else {
 					w, err = cl.Data()
 				}
@@ -204,7 +210,7 @@ func C18(tier string) int {
 	if tier == "thorough" {
 		maxTx = 3
 	}
-	run.Rule = fmt.Sprintf("1..%d consecutive LMTP transactions on one client connection x 1..3 recipients each x every recipient in {refused at RCPT, accepted+ok, accepted+4xx, accepted+5xx} x {LMTPData with callback, Data without} x server backend {per-recipient statuses (set before/after the message is read), single result}; real client <-> real server in a synctest bubble (a client blocked on a reply that never comes is a runtime-detected deadlock). Distinct by construction; non-trivial = more than one transaction or a refusal. Oracle: callback exactly once per recipient accepted in THIS transaction, in order, with that recipient's own reply; Close returns after exactly those replies (a following NOOP is in step); without callback a refusal comes back from Close. In addition a SCRIPTED LMTP server that accepts recipients with 250, 251 or 252 (or refuses with 550): all recipient lists of <=3 over {250,251,252,550} x all final verdict vectors x {callback, none} x a second transaction.", maxTx)
+	run.Rule = fmt.Sprintf("1..%d consecutive LMTP transactions on one client connection x 1..3 recipients each x every recipient in {refused at RCPT, accepted+ok, accepted+4xx, accepted+5xx} x {LMTPData with callback, Data() without, LMTPData(nil)} x server backend {per-recipient statuses (set before/after the message is read), single result}; real client <-> real server in a synctest bubble (a client blocked on a reply that never comes is a runtime-detected deadlock). Distinct by construction; non-trivial = more than one transaction or a refusal. Oracle: callback exactly once per recipient accepted in THIS transaction, in order, with that recipient's own reply; Close returns after exactly those replies (a following NOOP is in step); without callback a refusal comes back from Close. In addition a SCRIPTED LMTP server that accepts recipients with 250, 251 or 252 (or refuses with 550): all recipient lists of <=3 over {250,251,252,550} x all final verdict vectors x {callback, none} x a second transaction.", maxTx)
 	var txs []string
 	enumStrings([]byte("rotp"), 3, func(s []byte) {
 		if len(s) > 0 {
@@ -218,6 +224,9 @@ func C18(tier string) int {
 			for _, cb := range []bool{true, false} {
 				for _, plain := range []bool{false, true} {
 					cases = append(cases, C18Case{Tx: append([]string(nil), cur...), UseCB: cb, Plain: plain})
+					if !cb {
+						cases = append(cases, C18Case{Tx: append([]string(nil), cur...), Plain: plain, NilCB: true})
+					}
 				}
 			}
 		}
